@@ -49,7 +49,7 @@ func (loader *CompilerLoader) LoadAll(readers []io.Reader) (compiler.Passes, err
 }
 
 func (loader *CompilerLoader) Load(reader io.Reader) (compiler.Passes, error) {
-	compilerConfig := &Compiler{}
+	compilerConfig := Compiler{}
 
 	decoder := yaml.NewDecoder(reader)
 	decoder.KnownFields(true)
